@@ -222,6 +222,10 @@ Proof. exact source_liftover_is_specification. Qed.
 Theorem C05_prev_index_matches_source : forall a i v, k_get_prev_index a i v = u8_prev_index a i v.
 Proof. exact k_get_prev_index_eq. Qed.
 
+(* ... and the forward search (try / except ValueError around array.index(value, start)) likewise *)
+Theorem C05_next_index_matches_source : forall a i v, k_get_next_index a i v = u8_next_index a i v.
+Proof. exact k_get_next_index_eq. Qed.
+
 (* ... and of a REF-coordinate variant (Variant.any_pos with the bound method ref_pos_overlaps_var handed over as a callback) *)
 Theorem C05_ref_var_overlap_matches_source : forall g v,
   ref_var_overlaps_var g (v_pos v) (zlen (v_ref v)) <> Err OtherErr ->
@@ -294,6 +298,7 @@ Print Assumptions C05_clamp_matches_source.
 Print Assumptions C05_from_var_stats_matches_source.
 Print Assumptions C05_source_record_is_model_record.
 Print Assumptions C05_prev_index_matches_source.
+Print Assumptions C05_next_index_matches_source.
 Print Assumptions C05_source_liftover_is_specification.
 Print Assumptions C05_alt_var_overlap_characterised.
 Print Assumptions C05_alt_single_base_insertion_point_refuted.
